@@ -11,6 +11,7 @@ You can obtain one at http://mozilla.org/MPL/2.0/.
 #include "libfive/render/brep/object_pool.hpp"
 #include "libfive/render/brep/settings.hpp"
 #include "libfive/render/brep/progress.hpp"
+#include "libfive/verif.hpp"
 
 namespace libfive {
 
@@ -39,6 +40,8 @@ public:
         if (settings.progress_handler) {
             settings.progress_handler->nextPhase(object_pool.num_blocks());
         }
+        LIBFIVE_VERIF_POINT(verif::SITE_RESET_ANNOUNCE, object_pool.num_blocks(),
+                settings.progress_handler ? 1 : 0, this);
         object_pool.reset(settings.workers, settings.progress_handler);
     }
 
